@@ -3,7 +3,7 @@
    real importer and HAMT code), logged block by block, must be behaviours of GatewayCar in
    which every invariant of the property holds:
      Dag   the projected DAG (node id = CID) and the id of the root the content paths start at
-     Req   one CAR request: path, dag-scope, entity-bytes, dups
+     Req   one CAR request: node the content path starts at, path, dag-scope, entity-bytes, dups
      Block one block of the CAR body, in stream order: node id (0 = not a block of the DAG),
            hashOK = the bytes hash to the CID
      End   CAR header root, HTTP status, result of the independent offline re-read
@@ -29,7 +29,8 @@ TDag == /\ IsEvent("Dag") /\ phase \in {"idle", "done"}
         /\ req' = NoReq /\ term' = 0 /\ need' = {} /\ todo' = <<>> /\ car' = <<>> /\ carRoot' = 0
         /\ phase' = "idle" /\ rawResp' = NoRaw
 TReq == /\ IsEvent("Req")
-        /\ RequestWith(dag, root,
+        /\ Ev.at \in DOMAIN dag
+        /\ RequestWith(dag, Ev.at,
                        [path |-> Ev.path, scope |-> Ev.scope, dups |-> Ev.dups,
                         rng |-> [has |-> Ev.has, from |-> Ev.from, star |-> Ev.star, to |-> Ev.to]],
                        <<>>)
